@@ -374,6 +374,8 @@ def eulerpoly(ctx, n, z):
 @defun
 def eulernum(ctx, n, exact=False):
     n = int(n)
+    if n < 0:
+        raise ValueError("Euler numbers only defined for n >= 0")
     if exact:
         return int(ctx._eulernum(n))
     if n < 100:
